@@ -20,7 +20,7 @@ from ..flow import Flow
 from .. import preds, sym
 from ..preds import Scope, canon, refine, cmp_atom, absorb, fmt
 from ..sym import Interp, Unsupported, Vec, Container
-from .common import facts_for, full_classes, strip_copy, is_this_mem, lit_value
+from .common import facts_for, full_classes, strip_copy, is_this_mem, lit_value, inline_expr_helpers
 
 
 def ret_nodes(f):
@@ -76,6 +76,11 @@ def check_funnel(chk, F, cls):
     lookups = F.funcs(cls, "findSegment")
     look1 = next(f for f in lookups if len(f["params"]) == 1)
     look2 = next(f for f in lookups if len(f["params"]) == 2)
+    # small private wrappers (a helper that subtracts the breakpoint and calls the Horner routine, say) are read through;
+    # the routines the rules are about are never inlined
+    keep = {horner["fid"], look1["fid"], look2["fid"]} | {f["fid"] for f in ev}
+    scalar_int, hint_int, batch_int = (inline_expr_helpers(F, f, keep) for f in (scalar_int, hint_int, batch_int))
+    ev = [{scalar_int["fid"]: scalar_int, hint_int["fid"]: hint_int, batch_int["fid"]: batch_int}.get(f["fid"], f) for f in ev]
     def lit_null(x):
         x = strip_copy(x)
         while isinstance(x, dict) and x.get("k") == "cast":
@@ -112,7 +117,8 @@ def check_funnel(chk, F, cls):
             det = "Horner arguments %s" % a
             # the lookup called is the matching overload
             lcalls = [n for n in walk(f["body"]) if n.get("k") == "call" and callee(n).get("name") == "findSegment"]
-            ok = ok and len(lcalls) == 1 and callee(lcalls[0]).get("fid") == lk["fid"]
+            # (reading through a wrapper repeats the text of an argument: the same call, however often it is written)
+            ok = ok and lcalls and all(callee(n_).get("fid") == lk["fid"] for n_ in lcalls) and len({canon(n_, sc) for n_ in lcalls}) == 1
         chk.ob("C03-R1", "%s::evaluate/%d evaluates piece findSegment(t) at local time t - b[idx] through the Horner routine" % (cls, len(f["params"])), ok, loc(f), det,
                construct="%s/evaluate%d/funnel" % (cls, len(f["params"])))
         # R6: zero when the order exceeds the degree
@@ -167,6 +173,22 @@ def check_funnel(chk, F, cls):
                 sc.bind_opaque(sp_["params"][0]["id"], "%elem")
                 c = strip_copy(rr[0]["e"])
                 okl = c.get("k") == "call" and callee(c).get("fid") == scalar_int["fid"] and [canon(x, sc) for x in c["args"]] == ["%elem", "$p1"]
+                if not okl and c.get("k") == "call" and callee(c).get("fid") == horner["fid"]:
+                    # the element is computed by the Horner routine directly: the scalar route's own main expression, with
+                    # the scalar route's zero guard (order >= coefficient count) taken once for the whole batch
+                    lkc = "this.findSegment(%elem)"
+                    main_ok = [canon(x, sc) for x in c["args"]] == [lkc, "(%%elem - this.breakpoints_[%s])" % lkc, "$p1"]
+                    first = body[0]
+                    g_ok = False
+                    if first.get("k") == "if" and not first.get("else"):
+                        th = first["then"]
+                        rs = th["body"] if th.get("k") == "block" else [th]
+                        if len(rs) == 1 and rs[0].get("k") == "return" and preds.literal(first["cond"], sc) == cmp_atom(">=", "$p1", "this.num_coeffs_", False):
+                            z = strip_copy(rs[0]["e"])
+                            za = [strip_copy(x) for x in z.get("args", [])] if z.get("k") == "ctor" else []
+                            g_ok = len(za) in (2, 3) and canon(za[0], sc) == "$p0.size()" and any(x_.get("k") == "call" and callee(x_).get("name") == "Zero" for x_ in walk(za[1])) \
+                                and not any(x_.get("k") in ("var", "mem") for x_ in walk(za[1]))
+                    okl = main_ok and g_ok
         rets = [x_ for x_ in body if x_.get("k") == "return"]      # the function's own returns, not the lambda's
         okres = ins and len(rets) == 1 and strip_copy(rets[0]["e"]).get("id") == strip_copy(a[2]["args"][0]).get("id")
         chk.ob("C03-R1", "%s batch evaluation = scalar evaluation of each time in order" % cls, bool(rng and okl and okres), loc(batch_int), "std::transform over the whole input, appending", construct=cls + "/batch")
